@@ -29,6 +29,7 @@ CHECKS = {
   "C18": ("vcheck", "differential testing of the built command-line binary against in-process library calls: generated invocations (schema file, documents over --json/--cbor/--csv/--stdin, --ci, --features, --csv-header, missing files, broken schemas, rules in front of the root) with valid / near-miss documents from the semantic generator and .feature families; oracle = library verdict per document with the same bytes and features vs success / failure lines and --ci exit status; compile-cddl vs cddl_from_str on generated and mutated texts; proptest shrinking (capped)", "3/C18"),
   "C19": ("vcheck", "configuration testing plus differential testing across builds: cargo check of sampled (quick) or all 256 (thorough) feature sets; a driver built against 8-20 feature sets answers generated requests (parse + skeleton, format, JSON / CBOR / CSV validation of generated schemas with valid and near-miss documents, .pcre families) and all builds that provide the operation must agree; proptest shrinking", "3/C19"),
   "C03": ("vcheck", "grammar-based generation and differential testing against an independent recognizer: an Earley recognizer over the ABNF text of RFC 8610 Appendix B + RFC 9682 (+ the leniencies the crate documents, registered control names), with a longest-match reading for identifiers and numbers; positive: documents printed from random derivations must be accepted and the AST skeleton must equal the derivation's; agreement: 1-2 character edits of such documents and short token strings - whatever the parser accepts must be derivable; proptest shrinking", "3/C03"),
+  "C17": ("vcheck", "generated programs: schemas sampled from the documented mapping subset (maps, optional / nullable fields, arrays, tables, aliases, rule references incl. recursion, string-literal choices, hyphenated / keyword / colliding names) are compiled through cddl_typegen! in batches with the repository toolchain; valid-by-construction instances (accepted by the library validator) are deserialised into the generated root type and serialised back; oracle = compiles, same data (numbers by value), output still validates, two macro expansions in separate processes are byte-identical", "3/C17"),
   "C14": ("vcheck", "property-based testing of error reporting: non-empty error lists, JSON locations resolved against the document, distinct error kinds per fault, determinism across repetition / 8 concurrent threads / a fresh process", "3/C14"),
 }
 
